@@ -21,7 +21,8 @@
  */
 extern int mpt_qunshift(MPT_STRUCT(queue) *queue, size_t len, const void *data)
 {
-	int ret;
+	ssize_t ret;
+	/* remaining element count may exceed int range */
 	if ((ret = mpt_qpre(queue, len)) < 0) {
 		return ret;
 	}
